@@ -251,6 +251,53 @@ def binary_cases(quick):
 
 
 # ------------------------------------------------------------------------------------------------------------------
+# stage 'tarrays': the same clause for array-valued temperature - every entry (T_i, g_i) of an array call is the answer of the
+# scalar call at (T_i, g_i), whatever the shape of the temperature sequence (a thermal cycle returns to its first value)
+
+T_PATTERNS = {'const': [0, 0, 0], 'up': [0, 1, 2], 'cycle': [0, 1, 0], 'cycle4': [0, 1, 1, 0], 'down-up': [2, 0, 2], 'pair': [0, 1],
+              'plateau-end': [0, 1, 1], 'cycle5': [0, 2, 1, 2, 0]}
+
+
+def run_tarrays(case):
+    sysname, pattern, gs = case['system'], case['pattern'], case['g']
+    d = BIN_SYSTEMS[sysname]
+    th = _btherm(sysname, 'analytic' if d['kind'] == 'analytic' else 'tangent')
+    th.clearCache()
+    Ts = _lin(d['T'][0], d['T'][1], 5)[1:4]
+    idx = T_PATTERNS[pattern]
+    Tarr = np.array([Ts[i] for i in idx], dtype=float)
+    garr = np.array([gs[k % len(gs)] for k in range(len(idx))], dtype=float)
+    viol = []
+    xa, xb = th.getInterfacialComposition(Tarr.copy(), garr.copy())
+    xa, xb = np.atleast_1d(np.array(xa, dtype=float)), np.atleast_1d(np.array(xb, dtype=float))
+    nq = 1
+    if xa.shape != Tarr.shape or xb.shape != Tarr.shape:
+        viol.append({'sig': 'binary/%s/T-array/shape/%s' % (sysname, pattern),
+                     'msg': '%s: %d temperatures give x_alpha of shape %r' % (sysname, len(Tarr), xa.shape)})
+    else:
+        for k in range(len(Tarr)):
+            a1, b1 = th.getInterfacialComposition(float(Tarr[k]), float(garr[k]))
+            a1, b1 = float(np.squeeze(a1)), float(np.squeeze(b1))
+            nq += 1
+            ok = (a1 == -1) == (xa[k] == -1) and abs(xa[k] - a1) <= 1e-8 * abs(a1) and abs(xb[k] - b1) <= 1e-8 * abs(b1)
+            if not ok:
+                viol.append({'sig': 'binary/%s/T-array/entry-differs-from-scalar-call/%s' % (sysname, pattern),
+                             'msg': '%s: T=%r g=%r: entry %d (T=%g, g=%g) is x_alpha=%r x_beta=%r, the scalar call gives %r %r'
+                             % (sysname, Tarr.tolist(), garr.tolist(), k, Tarr[k], garr[k], xa[k], xb[k], a1, b1)})
+                break
+    return {'viol': viol, 'states': len(idx), 'transitions': nq, 'outcome': '%s/%s' % (sysname, pattern), 'nontrivial': len(set(idx)) > 1}
+
+
+def tarray_cases(quick):
+    out = []
+    for s in BIN_SYSTEMS:
+        for pattern in T_PATTERNS:
+            for gs in ([[0.0, 1000.0, 3000.0]] if quick else [[0.0, 1000.0, 3000.0], [2000.0], [6000.0, 300.0]]):
+                out.append({'system': s, 'pattern': pattern, 'g': gs})
+    return out
+
+
+# ------------------------------------------------------------------------------------------------------------------
 # stage 'states'
 
 def run_states(case):
@@ -407,4 +454,5 @@ def run(ctx):
                   'g_lattice': bc[0]['g'], 's_lattice': bc[0]['s'], 'tol_abs_J_per_mol': TOL_ABS, 'tol_rel': TOL_REL,
                   'state_runs': len(sc), 'horizon_steps': 2500}
     ctx.product_run('binary', 'checks.c12:run_binary', bc, chunksize=1)
+    ctx.product_run('tarrays', 'checks.c12:run_tarrays', tarray_cases(quick))
     ctx.product_run('states', 'checks.c12:run_states', sc, chunksize=1)
